@@ -1,7 +1,7 @@
 (* C01 -- locomotive and consist energy ledger closes.  Pinned statements only. *)
 From Coq Require Import Reals List Bool.
 From AltModel Require Import Num Interp Powertrain Loco Consist.
-From AltProofs Require Import NumR PowertrainP LocoP C08P ConsistP C10P C01P.
+From AltProofs Require Import NumR PowertrainP LocoP C08P ConsistP C10P C01P ExampleP.
 Import ListNotations.
 Open Scope R_scope.
 
@@ -41,3 +41,7 @@ Proof. exact consist_step_rollup. Qed.
 
 Theorem C01_consist_rollup_run : forall c trace c', rollup c -> run cstep c trace = Ok c' -> rollup c'.
 Proof. exact consist_run_rollup. Qed.
+
+(* non-vacuity: a concrete locomotive that is well-formed and starts with a closed ledger *)
+Example C01_hypotheses_satisfiable : ledger_state loco0.
+Proof. exact loco0_ledger. Qed.
